@@ -165,6 +165,22 @@ func c06Encode(c *Ctx, m map[string]interface{}, enc string, safe bool, prefix, 
 			}
 		} else if lit != special {
 			c.Violate(enc, "default-encoding-literal", shape, cas, nil, detail(fmt.Sprintf("data has %d of <,>,& but the output shows %d literally", special, lit)))
+		} else if enc != "MapToJson" {
+			// "Just a wrapper on json.Marshal / json.MarshalIndent": apart from the three escapes the bytes are
+			// those of encoding/json - the layout for every prefix / indent pair included
+			var cb bytes.Buffer
+			je := json.NewEncoder(&cb)
+			je.SetEscapeHTML(false)
+			je.Encode(m)
+			ref := bytes.TrimSuffix(cb.Bytes(), []byte("\n"))
+			if enc == "JsonIndent" {
+				var ib bytes.Buffer
+				json.Indent(&ib, ref, prefix, indent)
+				ref = ib.Bytes()
+			}
+			if !bytes.Equal(ref, out) {
+				c.Violate(enc, "default-encoding-layout", shape, cas, nil, detail(fmt.Sprintf("differs from encoding/json (escapes aside): %q", ref)))
+			}
 		}
 	}
 	c.Outcome(string(out))
